@@ -23,6 +23,11 @@ def guard_sig(body, bb, eb, drop=()):
             s = show(c)
             if any(d in s for d in drop):
                 continue
+            # not (a == b) is a != b and vice versa (exactly, NaN included)
+            if not pos and s.startswith("Eq("):
+                pos, s = True, "Ne(" + s[3:]
+            elif not pos and s.startswith("Ne("):
+                pos, s = True, "Eq(" + s[3:]
             out.append(("+" if pos else "-") + s)
     return tuple(sorted(out))
 
@@ -155,7 +160,7 @@ def run(ctx):
                 sub = gmap[("self.pitch_counter", repr(Poly.atom(("F", "pitch_counter")) - Poly.atom(("F", "pitch_of_curr_point"))))]
                 inc = gmap[("self.pitch_counter", repr(Poly.atom(("F", "pitch_counter")) + Poly.const(1)))]
                 okg = any(x.startswith("+Ge(self.pitch_counter, self.pitch_of_curr_point)") for x in sub) and \
-                    all(any(x.startswith("-Eq(self.pitch_of_curr_point, 0.0)") for x in gd) for gd in gmap.values()) and \
+                    all(any(x.startswith("+Ne(self.pitch_of_curr_point, 0.0)") for x in gd) for gd in gmap.values()) and \
                     not any("Ge(" in x for x in inc)
                 if okg:
                     ctx.ok("C07-R2", "get() [%s]: counter += 1; counter -= pitch under counter >= pitch; pitch += inc; all under pitch != 0" % k, g.loc())
@@ -256,7 +261,14 @@ def run(ctx):
         from ..loops import enumerate_as_range, prefix_slices, loop_var_parts
         _norm = lambda e: prefix_slices(enumerate_as_range(e))
         tap_ranges = []
-        for bb, i, s_, tgt, root, chain, val in stores(vf, eb):
+        from ..loops import for_each_bodies
+        # stores of voiced_frame itself and of `(0..n).for_each(|i| ..)` closures in it (read as loops)
+        all_stores = [(bb, i, s_, tgt, root, chain, val, guard_sig(vf, bb, eb)) for bb, i, s_, tgt, root, chain, val in stores(vf, eb)]
+        for cb_, ceb_, rw_, fbb_ in for_each_bodies(p, vf, eb):
+            outer = guard_sig(vf, fbb_, eb)
+            for bb, i, s_, tgt, root, chain, val in stores(cb_, ceb_):
+                all_stores.append((bb, i, s_, rw_(tgt), root, chain, rw_(val), tuple(sorted(set(outer) | set(guard_sig(cb_, bb, ceb_))))))
+        for bb, i, s_, tgt, root, chain, val, gsig in all_stores:
             tgt, val = _norm(tgt), _norm(val)
             # target: *get_mut_with_offset(ring_buffer, i)
             if tgt[0] == "call" and tgt[1].endswith("get_mut_with_offset") and show(tgt[2][0]) == "self.ring_buffer":
@@ -272,7 +284,7 @@ def run(ctx):
                         return (e[2].upper(),)
                     return None
                 pol = to_poly(val, atomize) - Poly.atom(("OLD",))
-                entries.append((repr(pol), guard_sig(vf, bb, eb), show(ie)))
+                entries.append((repr(pol), gsig, show(ie)))
             else:
                 ctx.fail("C07-R4", vf.path, "store " + show(tgt)[:50], "unexpected store in voiced_frame", cm.loc_of(s_["span"]))
         N, Pu, H = Poly.atom(("NOISE",)), Poly.atom(("PULSE",)), Poly.atom(("H",))
@@ -319,7 +331,7 @@ def run(ctx):
                         v_ = eb.at(dbb, didx).rvalue(ditem["rv"])
                         gd_ = guard_sig(vf, dbb, eb)
                         if v_[0] == "c":
-                            pol_ = "+" if any(x.startswith("+Eq(") and "Div(Sub(" in x for x in gd_) else ("-" if any(x.startswith("-Eq(") and "Div(Sub(" in x for x in gd_) else "?")
+                            pol_ = "+" if any(x.startswith("+Eq(") and "Div(Sub(" in x for x in gd_) else ("-" if any(x.startswith("+Ne(") and "Div(Sub(" in x for x in gd_) else "?")
                             sel[pol_] = float(v_[1])
                     gd = guard_sig(vf, bb, eb)
                     if sel == {"+": 1.0, "-": 0.0} and any("Ne(noise, 0.0)" in x and x.startswith("+") for x in gd):
@@ -335,7 +347,7 @@ def run(ctx):
             gc, go, gp = found["centre"][0], found["other"][0], found["pulse"][0]
             if not any(x.startswith("+Eq(") and "center" in x.lower() or x.startswith("+Eq(") and "Div(Sub(" in x for x in gc):
                 okk = False
-            if not any(x.startswith("-Eq(") for x in go):
+            if not any(x.startswith("+Ne(") for x in go):
                 okk = False
             if not any("Ne(noise, 0.0)" in x and x.startswith("+") for x in gc) or not any("Ne(pulse, 0.0)" in x and x.startswith("+") for x in gp):
                 okk = False
